@@ -62,6 +62,8 @@ pub struct Snap {
     pub history: Vec<Hist>,
     /// the unbond history decoded from the hub's raw storage
     pub raw_history: Option<Vec<Hist>>,
+    /// single AllHistory pages asked with arbitrary (start_from, limit)
+    pub history_probes: Vec<(Option<u64>, Option<u32>, Vec<Hist>)>,
     pub requests: BTreeMap<String, Vec<(u64, u128, u128)>>,
     /// the same wait list decoded from the hub's raw storage (all addresses, not only the known ones)
     pub raw_requests: Option<BTreeMap<String, Vec<(u64, u128, u128)>>>,
@@ -149,6 +151,20 @@ pub const HISTORY_PAGE: u32 = 8;
 /// page size for AllAccounts / Holders enumerations (small, so that `start_after` paging is exercised constantly)
 pub const ENUM_PAGE: u32 = 7;
 
+fn to_hist(x: &h::UnbondHistoryResponse) -> Hist {
+    Hist {
+        batch_id: x.batch_id,
+        time: x.time,
+        bsei_amount: x.bsei_amount.u128(),
+        bsei_applied: at(x.bsei_applied_exchange_rate),
+        bsei_withdraw: at(x.bsei_withdraw_rate),
+        stsei_amount: x.stsei_amount.u128(),
+        stsei_applied: at(x.stsei_applied_exchange_rate),
+        stsei_withdraw: at(x.stsei_withdraw_rate),
+        released: x.released,
+    }
+}
+
 pub fn all_history(w: &World, errs: &mut Vec<String>) -> Vec<Hist> {
     let mut out: Vec<Hist> = vec![];
     let mut start: Option<u64> = None;
@@ -156,19 +172,7 @@ pub fn all_history(w: &World, errs: &mut Vec<String>) -> Vec<Hist> {
         match w.q::<h::AllHistoryResponse, _>(HUB, &h::QueryMsg::AllHistory { start_from: start, limit: Some(HISTORY_PAGE) }) {
             Ok(r) => {
                 let n = r.history.len();
-                for x in r.history {
-                    out.push(Hist {
-                        batch_id: x.batch_id,
-                        time: x.time,
-                        bsei_amount: x.bsei_amount.u128(),
-                        bsei_applied: at(x.bsei_applied_exchange_rate),
-                        bsei_withdraw: at(x.bsei_withdraw_rate),
-                        stsei_amount: x.stsei_amount.u128(),
-                        stsei_applied: at(x.stsei_applied_exchange_rate),
-                        stsei_withdraw: at(x.stsei_withdraw_rate),
-                        released: x.released,
-                    });
-                }
+                out.extend(r.history.iter().map(to_hist));
                 if n < HISTORY_PAGE as usize {
                     break;
                 }
@@ -178,6 +182,33 @@ pub fn all_history(w: &World, errs: &mut Vec<String>) -> Vec<Hist> {
                 errs.push(format!("hub AllHistory: {}", e));
                 break;
             }
+        }
+    }
+    out
+}
+
+/// Arbitrary single pages of AllHistory (C07 judges each against the stored history): always the "from the very
+/// start" call `start_from: Some(0)`, plus one page whose start and limit vary with the state.
+pub fn history_probes(w: &World, n_hist: usize, errs: &mut Vec<String>) -> Vec<(Option<u64>, Option<u32>, Vec<Hist>)> {
+    let mut x = (w.time ^ ((n_hist as u64) << 7) ^ (w.height << 13)).wrapping_mul(0x9E37_79B9_7F4A_7C15);
+    let mut next = |m: u64| {
+        x ^= x >> 29;
+        x = x.wrapping_mul(0xBF58_476D_1CE4_E5B9);
+        x ^= x >> 32;
+        x % m
+    };
+    let limits = [None, Some(1u32), Some(2), Some(3), Some(5), Some(100), Some(1000)];
+    let mut asks: Vec<(Option<u64>, Option<u32>)> = vec![(Some(0), limits[next(7) as usize])];
+    let s = match next(4) {
+        0 => None,
+        _ => Some(next(n_hist as u64 + 3)),
+    };
+    asks.push((s, limits[next(7) as usize]));
+    let mut out = vec![];
+    for (s, l) in asks {
+        match w.q::<h::AllHistoryResponse, _>(HUB, &h::QueryMsg::AllHistory { start_from: s, limit: l }) {
+            Ok(r) => out.push((s, l, r.history.iter().map(to_hist).collect())),
+            Err(e) => errs.push(format!("hub AllHistory({:?},{:?}): {}", s, l, e)),
         }
     }
     out
@@ -313,6 +344,7 @@ pub fn take(w: &World) -> Snap {
         }
     };
     let history = all_history(w, &mut errs);
+    let history_probes = history_probes(w, history.len(), &mut errs);
     let mut requests = BTreeMap::new();
     for a in known.iter() {
         match w.q::<h::UnbondRequestsResponse, _>(HUB, &h::QueryMsg::UnbondRequests { address: a.clone() }) {
@@ -407,6 +439,7 @@ pub fn take(w: &World) -> Snap {
         req_s,
         history,
         raw_history,
+        history_probes,
         requests,
         raw_requests,
         raw_registry: raw_registry(w),
